@@ -352,6 +352,39 @@ impl ProxyState {
 
     /// Legal re-fragmentation of the (single, unfragmented) handshake message in `d` into `n` fragments.
     /// `cuts` (optional) are the fragment boundaries as byte offsets into the message body.
+    /// Fragments given as [lo, hi) ranges in sixths of the body (they may overlap or repeat): legal per RFC 6347
+    /// 4.2.3 ("fragments may overlap").
+    fn split_ranges(&mut self, d: &[u8], ranges: &[(usize, usize)]) -> Option<Vec<(Vec<u8>, usize)>> {
+        let recs = parse_records(d);
+        if recs.len() != 1 || recs[0].ctype != 22 || recs[0].epoch != 0 {
+            return None;
+        }
+        let hs = parse_hs(&recs[0].body);
+        if hs.len() != 1 || hs[0].off != 0 || hs[0].flen != hs[0].total {
+            return None;
+        }
+        let h = &hs[0];
+        let len = h.body.len();
+        if len < 6 {
+            return None;
+        }
+        let at = |u: usize| match u {
+            0 => 0,
+            2 => len / 3,
+            3 => len / 2,
+            4 => 2 * len / 3,
+            6 => len,
+            x => x * len / 6,
+        };
+        let mut out = Vec::new();
+        for (i, (lo, hi)) in ranges.iter().enumerate() {
+            let (a, b) = (at(*lo), at(*hi));
+            let fh = Hs { typ: h.typ, total: h.total, mseq: h.mseq, off: a as u32, flen: (b - a) as u32, body: h.body[a..b].to_vec() };
+            out.push((encode_record(&Rec { ver: (254, 253), ctype: 22, epoch: 0, rseq: recs[0].rseq + i as u64, body: encode_hs(&fh) }), i + 1));
+        }
+        Some(out)
+    }
+
     fn split(&mut self, d: &[u8], n: usize, cuts: Option<Vec<usize>>, same_dgram: bool) -> Option<Vec<(Vec<u8>, usize)>> {
         let recs = parse_records(d);
         if recs.len() != 1 || recs[0].ctype != 22 || recs[0].epoch != 0 {
@@ -565,7 +598,14 @@ impl ProxyState {
             let n = op.arg["n"].as_u64().unwrap_or(2) as usize;
             let cuts = op.arg["cuts"].as_array().map(|a| a.iter().filter_map(|x| x.as_u64().map(|y| y as usize)).collect());
             let same = op.arg["same_dgram"].as_bool().unwrap_or(false);
-            match self.split(d, n, cuts, same) {
+            let ranges: Option<Vec<(usize, usize)>> = op.arg["ranges"].as_array().map(|a| {
+                a.iter().filter_map(|x| Some((x.get(0)?.as_u64()? as usize, x.get(1)?.as_u64()? as usize))).collect()
+            });
+            let parts = match &ranges {
+                Some(r) => self.split_ranges(d, r),
+                None => self.split(d, n, cuts, same),
+            };
+            match parts {
                 Some(parts) => {
                     *self.rseq_shift.entry(dir.to_string()).or_insert(0) += parts.len().saturating_sub(1) as u64;
                     net_event("split", json!({"dir": dir, "msg": base, "ord": ord, "n": parts.len(), "same_dgram": same}));
